@@ -72,15 +72,20 @@ fn drive(kind: &'static str, pieces: &'static [&'static str], depth: usize) -> O
     let bound = format!("{}: all concatenations of <= {} pieces from a list of {} directed pieces; hang = no progress for 3 s", kind, depth, pieces.len());
     let cur: Arc<Mutex<String>> = Arc::new(Mutex::new(String::new()));
     let tick = Arc::new(AtomicU64::new(0));
+    // the watchdog belongs to THIS enumeration: it stops when the enumeration is over (a watchdog left running would
+    // report the last input of a finished family as hanging while the next family is being enumerated)
+    let done = Arc::new(std::sync::atomic::AtomicBool::new(false));
     {
         let cur = cur.clone();
         let tick = tick.clone();
         let bound = bound.clone();
+        let done = done.clone();
         std::thread::spawn(move || {
             let mut last = u64::MAX;
             let mut same = 0;
             loop {
                 std::thread::sleep(std::time::Duration::from_millis(500));
+                if done.load(Ordering::SeqCst) { return; }
                 let t = tick.load(Ordering::SeqCst);
                 if t == last {
                     same += 1;
@@ -110,6 +115,7 @@ fn drive(kind: &'static str, pieces: &'static [&'static str], depth: usize) -> O
             let r = std::panic::catch_unwind(move || if kind == "wxml" { run_wxml(&s2) } else { run_css(&s2) });
             if let Err(e) = r {
                 let msg = e.downcast_ref::<String>().cloned().or_else(|| e.downcast_ref::<&str>().map(|x| x.to_string())).unwrap_or_default();
+                done.store(true, Ordering::SeqCst);
                 return Outcome { found: true, input: format!("{}\t{}", kind, s), observed: format!("panic: {}", msg), expected: "returns normally".into(), evaluations: count, bound };
             }
             let mut k = 0;
@@ -126,6 +132,7 @@ fn drive(kind: &'static str, pieces: &'static [&'static str], depth: usize) -> O
             }
         }
     }
+    done.store(true, Ordering::SeqCst);
     Outcome::none(count, &bound)
 }
 
